@@ -114,8 +114,8 @@ CLAIMED = {
         "graphs (isolated nodes, skew, self loops, parallel edges, fewer nodes than hosts, symmetric inputs); every host dumps its local "
         "graph through the public DistGraph API and TLC judges the merged dumps.",
    note="Trusted: TLC, harness dumping, the Python .gr writer. Small graphs (<= 13 nodes). Vertex-cut specific placement is not constrained.",
-   technique="TLA+ partition specification + TLC trace validation of real multi-host partitioner runs",
-   engine="free+tv", design_ref="6/C19"),
+   technique="TLA+ partition specification + TLC model checking of the edge-exchange protocol + TLC trace validation of real multi-host partitioner runs",
+   engine="mc+free+tv", design_ref="6/C19"),
  "C20": dict(
    category="model_checking",
    text="AppsAbs.tla defines the correct answers mathematically over small graphs (Bellman-Ford hop / weighted distances, connected "
